@@ -1,6 +1,9 @@
 #!/bin/bash
-# usage: confirm_seed.sh <ID>  -- re-confirm both seeded changes of /tmp/seed_<ID> and copy them to /verif/seeded
-id=$1; wt=/tmp/seed_$id; cd $wt || exit 1
+# usage: confirm_seed.sh <ID> [2]  -- re-confirm both seeded changes of /tmp/seed_<ID> (round 2: /tmp/seed2_<ID>,
+# stored as <ID>-c / <ID>-d) and copy them to /verif/seeded
+id=$1; round=${2:-1}
+if [ "$round" = "2" ]; then wt=/tmp/seed2_$id; else wt=/tmp/seed_$id; fi
+cd $wt || exit 1
 export CARGO_NET_OFFLINE=true
 git checkout -- . 2>/dev/null
 for x in a b; do
@@ -13,16 +16,17 @@ for x in a b; do
   if cargo test --offline --lib >/tmp/confirm_${id}_$x.lib.log 2>&1 && grep -q "90 passed; 0 failed" /tmp/confirm_${id}_$x.lib.log; then res="$res 90-tests-pass-with"; else res="$res UNIT-TESTS-FAIL-WITH"; fi
   if cargo test --offline --test seed_demo_$x >/tmp/confirm_${id}_$x.fail.log 2>&1; then res="$res DEMO-PASSES-WITH"; else res="$res demo-fails-with"; fi
   git checkout -- .
-  echo "$id-$x:$res"
-  d=/verif/seeded/$id-$x; mkdir -p $d
+  echo "$id-$x(round $round):$res"
+  y=$x; if [ "$round" = "2" ]; then if [ $x = a ]; then y=c; else y=d; fi; fi
+  d=/verif/seeded/$id-$y; mkdir -p $d
   cp _seed/patch_$x.diff $d/patch.diff; cp _seed/seed_demo_$x.rs $d/seed_demo.rs
-  python3 - "$id" "$x" "$res" <<'PY'
+  python3 - "$id" "$x" "$res" "$wt" "$y" <<'PY'
 import json,sys
-id,x,res=sys.argv[1:4]
-m=json.load(open(f"/tmp/seed_{id}/_seed/meta_{x}.json"))
+id,x,res,wt,y=sys.argv[1:6]
+m=json.load(open(f"{wt}/_seed/meta_{x}.json"))
 out={"property":id,"summary":m.get("summary"),"needs":m.get("needs"),"files":m.get("files"),
      "confirmed_by_me":res.split(),"confirm_commands":["cargo test --offline --test seed_demo (pristine)","git apply patch.diff","cargo test --offline --lib","cargo test --offline --test seed_demo"],
      "agent_ran":m.get("ran")}
-json.dump(out,open(f"/verif/seeded/{id}-{x}/meta.json","w"),indent=1)
+json.dump(out,open(f"/verif/seeded/{id}-{y}/meta.json","w"),indent=1)
 PY
 done
